@@ -108,6 +108,8 @@ def t_dispatch_kernel(ctx):
     else:
         ctx.witness('reject:' + res['out'])
         ctx.check('C14.no_trace', not res['in_hist'] and not res['queued'] and not res['any_child'], got=res)
+        # (the refused event was fresh: the bus that refused it must not appear in its event_path either)
+        ctx.check('C14.no_trace_path', res['path'] == [], got=res)
     if not limits and loop_running:
         ctx.check('C14.unbounded_never_rejects', acc, got=res)
 
